@@ -64,6 +64,19 @@ TARGETS = [
         ("Validator", "set_next_counterparty_commit_num", "C03", "C03_fn_validator_set_next_counterparty_commit_num", "filter"),
         ("Validator", "set_next_counterparty_revoke_num", "C03", "C03_fn_validator_set_next_counterparty_revoke_num", "filter"),
     ]),
+    dict(area="Secrets", rel="vls-core/src/policy/validator.rs", consts=[],
+         # the compact BOLT-3 store of counterparty revocation secrets (copied from LDK); the hash is a declared external
+         externals={
+             "Sha256::hash": {"params": ["Vec<u8>"], "ret": "Sha256Hash"},
+             "Sha256Hash.to_byte_array": {"params": [], "ret": "Vec<u8>"},
+         }, fns=[
+        ("CounterpartyCommitmentSecrets", "new", "C03", "C03_fn_secrets_new"),
+        ("CounterpartyCommitmentSecrets", "place_secret", "C03", "C03_fn_place_secret"),
+        ("CounterpartyCommitmentSecrets", "get_min_seen_secret", "C03", "C03_fn_get_min_seen_secret"),
+        ("CounterpartyCommitmentSecrets", "derive_secret", "C03", "C03_fn_derive_secret"),
+        ("CounterpartyCommitmentSecrets", "provide_secret", "C03", "C03_fn_provide_secret"),
+        ("CounterpartyCommitmentSecrets", "get_secret", "C03", "C03_fn_get_secret"),
+    ]),
     dict(area="Channel", rel="vls-core/src/channel.rs", consts=["vls-core/src/util/mod.rs"],
          structs=["vls-core/src/policy/validator.rs"],
          # declared externals (trusted boundary, explicit parameters of the generated definitions): key derivation of the
